@@ -19,7 +19,7 @@ LEVEL = 'fault_enumeration'
 EVAL_KEY = 'roundings'
 TIERS = {
     'quick': {'runs': 20000, 'opts': {}, 'chunk': 100},
-    'thorough': {'runs': 120000, 'opts': {}, 'chunk': 100, 'time_cap': 1200},
+    'thorough': {'runs': 800000, 'opts': {}, 'chunk': 200, 'time_cap': 1200},
 }
 RULE = ('seeded TT tensors / TT matrices (random, over-parameterised x+x and x+0*y, zero-padded ranks, rank-deficient cores, cores '
         'scaled by 10^+-8 with compensation, zero tensor, super-diagonal spectra saturating every bond, badly conditioned gauges), '
